@@ -13,6 +13,7 @@ import MpirProofs.Lemmas.AliasRoot
 import MpirProofs.Lemmas.AliasShift2
 import MpirProofs.Lemmas.AliasGcd
 import MpirProofs.Lemmas.AliasR2exp
+import MpirProofs.Lemmas.AliasIor
 namespace Mpir.AliasMem
 open Mpir
 
@@ -102,9 +103,15 @@ theorem mpz_xor_ptr_spec {s : St} (h : Inv s) {res op1 op2 : Nat} (hr : res < s.
       ∀ i, i < s.nv → i ≠ res → s'.value i = s.value i :=
   mpz_xor_ok h hr h1 h2
 
-/-- the shared plumbing, for ANY sign-case table whose result fits the allocation it asks for (this is what mpz_ior
-    instantiates with `iorPlan`; that `iorPlan` fits — no carry out of MIN(sizes) limbs in the -,- case, ior.c:133-145 —
-    is not proved here, mpz_ior rests on the differential run). -/
+/-- mpz_ior (mpz/ior.c), same plumbing; the allocation requests are tight: `MIN (sizes)` in the -,- case (:106, :118-121) and
+    the size of the negative operand in the mixed case (:178-187) suffice because `(x & (y-1)) + 1` cannot carry out of the
+    limbs of `y` (`ior_fit`). -/
+theorem mpz_ior_ptr_spec {s : St} (h : Inv s) {res op1 op2 : Nat} (hr : res < s.nv) (h1 : op1 < s.nv) (h2 : op2 < s.nv) :
+    ∃ s', mpz_ior res op1 op2 s = .ok s' ∧ Inv s' ∧ s'.nv = s.nv ∧ s'.value res = Int.lor (s.value op1) (s.value op2) ∧
+      ∀ i, i < s.nv → i ≠ res → s'.value i = s.value i :=
+  mpz_ior_ok h hr h1 h2
+
+/-- the shared plumbing, for ANY sign-case table whose result fits the allocation it asks for. -/
 theorem logic_ptr_spec (plan : Bool → List Nat → Bool → List Nat → LogicPlan) (F : Bits.Z → Bits.Z → Bits.Z)
     (hres : ∀ n1 a n2 b, (plan n1 a n2 b).result = F ⟨n1, a⟩ ⟨n2, b⟩)
     (hwf : ∀ x y : Bits.Z, x.WF → y.WF → (F x y).WF)
